@@ -13,6 +13,9 @@ import (
 	"github.com/plgd-dev/go-coap/v3/message/pool"
 )
 
+// activeTracker is non-nil while a C12 run is in progress.
+var activeTracker *poolTracker
+
 type lcEvent struct {
 	Kind string // Rel Rec Reacq Hold Unhold AppRel
 	Obj  int
